@@ -1401,6 +1401,15 @@ def check_C16(ctx):
         for t in range(1, len(btr["moves"]) + 1, 3 if q else 1):
             for a in ([[["try-submit-jobs", "{out}"]]] if q else [[], [["try-submit-jobs", "{out}"]]]):
                 ctasks.append(("cancel", (b, ctx.seed + 11 + i, t, a)))
+    # "exactly once": a resubmission is not a new submission -- the setup command does not run again, whether the
+    # resubmission selects some of the jobs or every one of them; the teardown command runs once per completion
+    rtasks = []
+    for i, s in enumerate(seeds(ctx, 12 if q else 120, 57)):
+        sc = families.scn("ABC", blk=[{}, {"C": ["A"]}, {"B": ["A"], "C": ["B"]}][i % 3], rc=[{}, {"A": 1}, {"A": 1, "B": 2, "C": 1}][(i // 3) % 3],
+                          groups=[families.G(size=1 + i % 3, tryadd=bool(i % 2), procs=2)], maxnodes=(0, 1, 2)[i % 3], hooks=[allh, subh][i % 2])
+        fss = [["--successful", "--failed", "--missing"], ["--failed", "--missing"], ["--successful"]][i % 3]
+        rtasks.append(("resubmit_scn", (sc, s, [fss] if i % 4 else [fss, ["--successful", "--failed", "--missing"]], None)))
+    ctx.judge(run_tasks(rtasks), "submissions with lifecycle commands resubmitted (some jobs / every job; once or twice)")
     ctx.extra["cancel_moments_with_hooks"] = len(ctasks)
     ctx.judge(cbl + run_tasks(ctasks), "cancel-jobs at every step of submissions with lifecycle commands (teardown of a canceled completion)")
     return ctx.finish(rule="JadeImpl with the four commands as actions explored on 4 small scenarios and replayed into the code; "
